@@ -270,6 +270,9 @@ pub fn check(obs: &Obs, out: &mut CaseOut) -> Summary {
     let lane_by_name: HashMap<&str, usize> = plan.lanes.iter().enumerate().map(|(i, s)| (s.name.as_str(), i)).collect();
     let ids = &obs.final_state.ids;
     let lane_by_id: HashMap<u64, usize> = ids.iter().filter_map(|(name, id)| lane_by_name.get(name.as_str()).map(|l| (*id, *l))).collect();
+    // Store items (parts `stores`, `init-faults`): their names and ids are judged by `oracle_ext`.
+    let is_store_item = |name: &str| plan.stores.iter().any(|s| s.name == name);
+    let store_item_ids: Vec<u64> = ids.iter().filter(|(name, _)| is_store_item(name.as_str())).map(|(_, id)| *id).collect();
     let gen = plan.incarnation;
     let before = out.violations.len();
 
@@ -281,7 +284,11 @@ pub fn check(obs: &Obs, out: &mut CaseOut) -> Summary {
             || (!obs.refused.is_empty() && error_class(e) == "persistence")
             // a lane whose stored state cannot be read must not come up: the runtime gives up (during
             // initialisation: restoration / agent initialisation failure)
-            || (!obs.read_refused.is_empty() && matches!(error_class(e), "restoration" | "agent-init" | "persistence" | "other"));
+            || (!obs.read_refused.is_empty() && matches!(error_class(e), "restoration" | "agent-init" | "persistence" | "other"))
+            // (extension parts) an item that misbehaves in the handshake of the initialisation phase, or
+            // whose identifier the store refuses: the agent does not start / the runtime gives up
+            || (plan.has_init_phase_fault() && matches!(error_class(e), "restoration" | "agent-init"))
+            || (!obs.id_refused.is_empty() && matches!(error_class(e), "restoration" | "agent-init" | "persistence"));
         if !expected {
             out.violation(
                 PROP,
@@ -302,6 +309,7 @@ pub fn check(obs: &Obs, out: &mut CaseOut) -> Summary {
                 json!({"lane": name, "ticket": t, "incarnation": gen}),
             ),
             Some(_) => {}
+            None if is_store_item(name.as_str()) => {}
             None => out.violation(PROP, "store-id-for-unknown-name", "the store was asked for the identifier of a name that is not a lane of the agent", json!({"name": name, "ticket": t})),
         }
     }
@@ -321,6 +329,7 @@ pub fn check(obs: &Obs, out: &mut CaseOut) -> Summary {
     for (log_idx, (t, op)) in obs.log.iter().enumerate() {
         let id = store_op_id(op);
         match lane_by_id.get(&id) {
+            None if store_item_ids.contains(&id) => {}
             None => out.violation(PROP, "store-op-unknown-id", "a store operation used an identifier the store never gave to a lane of this agent", json!({"op": format!("{op:?}"), "ticket": t})),
             Some(l) => {
                 let spec = &plan.lanes[*l];
@@ -749,7 +758,11 @@ pub fn check(obs: &Obs, out: &mut CaseOut) -> Summary {
         if let Some((t, e)) = &rec.reg_error {
             // A registration that races with the end of the incarnation may fail; so does one that
             // comes after the runtime gave up because the store refused an operation.
-            let runtime_gave_up = obs.refused.first().map_or(false, |(rt, _)| rt < t) || obs.read_refused.first().map_or(false, |(rt, _)| rt < t);
+            let runtime_gave_up = obs.refused.first().map_or(false, |(rt, _)| rt < t) || obs.read_refused.first().map_or(false, |(rt, _)| rt < t) || obs.id_refused.first().map_or(false, |(rt, _)| rt < t);
+            // (extension part `init-faults`) a lane that misbehaves as planned is judged by `oracle_ext`.
+            if plan.lane_faults[l].is_some() {
+                continue;
+            }
             // With a finite inactivity time-out the runtime may stop by itself in the middle of the
             // script: a registration that comes after that stop (or races with it) fails like one that races with the ending.
             // (Not before one time-out of virtual time has passed since the incarnation began.)
